@@ -14,8 +14,9 @@ The *oracle* is the library's own payload decoding (cls().unpack(exact payload) 
 independently of the indexer for every CRC-consistent sync position of the file; MODEL and SPEC take the P1
 stamp of a message from this table (per-class payload codecs are the subject of C01, not of C08).
 
-`--catalog` prints one JSON line: a list of [type, version, payload_hex, has_time] for every registered
-message class whose default instance packs, with a P1 time set where the class has one.
+`--catalog` prints two JSON lines: a list of [type, version, payload_hex, stamp_offset] for every registered
+message class whose default instance packs (with a P1 time set where the class has one), and a dict with the
+fork probe and `registered` = [type, version] of EVERY registered class.
 """
 import hashlib
 import json
@@ -146,6 +147,12 @@ def catalog():
     return out
 
 
+def registered():
+    """[type, MESSAGE_VERSION] of EVERY registered payload class, whether or not its default instance packs"""
+    return [[int(t), int(getattr(cls, 'MESSAGE_VERSION', 0) or 0)] for t, cls in
+            sorted(message_type_to_class.items(), key=lambda kv: int(kv[0]))]
+
+
 def _worker_consts(_):
     return [fi._READ_SIZE_BYTES, fi._MAX_FE_MSG_SIZE_BYTES, os.getpid()]
 
@@ -166,7 +173,7 @@ def probe_fork():
 def main():
     if len(sys.argv) > 1 and sys.argv[1] == '--catalog':
         print(json.dumps(catalog()))
-        print(json.dumps(probe_fork()))
+        print(json.dumps(dict(probe_fork(), registered=registered())))
         return
     tmpdir = sys.argv[1]
     os.makedirs(tmpdir, exist_ok=True)
